@@ -145,7 +145,7 @@ func runFltExh(c *core.Ctx) {
 					p := o.Path(u)
 					if strings.HasPrefix(p, "recv.f.") && strings.Count(p, ".") == 2 && !strings.ContainsAny(p, "[(") {
 						copies[strings.TrimPrefix(p, "recv.f.")] = true
-					} else if strings.HasPrefix(p, "recv.") && strings.Count(p, ".") >= 2 && !strings.ContainsAny(p, "[(") {
+					} else if strings.HasPrefix(p, "recv.") && strings.Count(p, ".") >= 1 && !strings.ContainsAny(p, "[(") {
 						// the copies regrouped into sub-structs of the matcher (`m.lim.limit`): like-named
 						// up to the capital letter an unexported field loses
 						last := p[strings.LastIndex(p, ".")+1:]
@@ -202,6 +202,9 @@ func runFltExh(c *core.Ctx) {
 					}
 				}
 			})
+			if !ok && matcherCopyOf(c, f) != "" {
+				ok = true // stored as part of a struct value (`ret.limit = limitCounter{limit: filter.Limit}`)
+			}
 			if !ok {
 				wrong = append(wrong, f)
 			}
@@ -339,6 +342,9 @@ func runFltBnd(c *core.Ctx) {
 			txt   string
 		}{{"Since", an.Range(0, an.PosInf), "[since,+∞)"}, {"Until", an.Range(an.NegInf, 0), "(-∞,until]"}} {
 			sym := "recv.f." + row.field
+			if cp := matcherCopyOf(c, row.field); cp != "" {
+				sym = cp // regrouped: `m.f.Created.since`
+			}
 			// with the bound present (wherever its presence is tested: in Match or in a
 			// predicate helper Match delegates to)
 			fr := an.SymFrame(subj, sym).AssumePresent(sym)
@@ -412,14 +418,8 @@ func runLimDone(c *core.Ctx) {
 	// tree; read off the constructor (the field filter.Limit is copied into) and off LimitMatch
 	// (the integer field of the receiver it stores into) when the struct was regrouped
 	limitPath, cntPath := "recv.f.Limit", "recv.cnt"
-	if ctor := P.Func(P.Root, "NewReqFilterMatcher"); ctor != nil && len(ctor.Params) > 0 {
-		an.Instrs(ctor, func(in ssa.Instruction) {
-			if st, ok := in.(*ssa.Store); ok && an.PathOf(st.Val) == "p:"+ctor.Params[0].Name()+".Limit" {
-				if ap := an.PathOf(st.Addr); strings.HasPrefix(ap, "alloc:") && strings.Contains(ap, ".") {
-					limitPath = "recv" + ap[strings.Index(ap, "."):]
-				}
-			}
-		})
+	if cp := matcherCopyOf(c, "Limit"); cp != "" {
+		limitPath = cp
 	}
 	an.Region(lm, nil, func(o an.Occ) {
 		if st, ok := o.In.(*ssa.Store); ok {
@@ -535,6 +535,85 @@ func runLimDone(c *core.Ctx) {
 		}
 	}
 	c.Check(good, nil, fname(c, lm), "count", P.Pos(lm.Pos()), "cnt advances by exactly one, exactly when Match(event) is true, and that verdict is returned", detail)
+}
+
+// matcherCtorCopies: what NewReqFilterMatcher stores where, field by field, in the matcher's own
+// terms: "recv.f.Since" → "p:filter.Since". A store of a whole struct value (a literal, or what a
+// small constructor returns: `ret.f.Created = newTimeRange(filter.Since, filter.Until)`,
+// `ret.limit = limitCounter{limit: filter.Limit}`) is taken apart into its fields.
+func matcherCtorCopies(c *core.Ctx) map[string]string {
+	out := map[string]string{}
+	ctor := c.P.Func(c.P.Root, "NewReqFilterMatcher")
+	if ctor == nil {
+		return out
+	}
+	var put func(addr, val string, depth int)
+	put = func(addr, val string, depth int) {
+		if fs, ok := an.LitFields(val); ok && depth < 4 {
+			for f, v := range fs {
+				put(addr+"."+f, v, depth+1)
+			}
+			return
+		}
+		out[addr] = val
+	}
+	an.Instrs(ctor, func(in ssa.Instruction) {
+		st, ok := in.(*ssa.Store)
+		if !ok {
+			return
+		}
+		// the field chain from the matcher that is being built down to the stored field
+		suffix := ""
+		base := st.Addr
+		for {
+			fa, ok := base.(*ssa.FieldAddr)
+			if !ok {
+				break
+			}
+			_, stt := structOf(fa)
+			if stt == nil {
+				// an anonymous struct (the matcher's `f`)
+				t := fa.X.Type()
+				if pt, isPtr := t.Underlying().(*types.Pointer); isPtr {
+					t = pt.Elem()
+				}
+				stt, _ = t.Underlying().(*types.Struct)
+			}
+			if stt == nil {
+				return
+			}
+			if !an.GroupFieldHook(fa.X.Type(), fa.Field) {
+				suffix = "." + an.FieldNameHook(stt, fa.Field) + suffix
+			}
+			base = fa.X
+		}
+		a, isAlloc := base.(*ssa.Alloc)
+		if !isAlloc || typeNameOf(a.Type()) != "ReqFilterEventLimitMatcher" {
+			return
+		}
+		vp := an.PathOf(st.Val)
+		if _, isLit := an.LitFields(vp); suffix == "" && !isLit {
+			return
+		}
+		put("recv"+suffix, vp, 0)
+	})
+	return out
+}
+
+// matcherCopyOf: where the matcher keeps its copy of filter field f ("" if it is not a plain copy).
+func matcherCopyOf(c *core.Ctx, f string) string {
+	ctor := c.P.Func(c.P.Root, "NewReqFilterMatcher")
+	if ctor == nil || len(ctor.Params) == 0 {
+		return ""
+	}
+	want := "p:" + ctor.Params[0].Name() + "." + f
+	best := ""
+	for k, v := range matcherCtorCopies(c) {
+		if v == want && (best == "" || k < best) {
+			best = k
+		}
+	}
+	return best
 }
 
 // storeToParamCopy: the store goes into (a field of) the local copy go/ssa makes of a by-value
